@@ -485,8 +485,17 @@ _MORE = {
             "client TCP allocation while ConnectionAttempt indications arrive. The client storm also has the application calling "
             "Client.CreatePermission and reading Realm()/Username() concurrently."),
 }
+_MORE["C08"] = (" Stage client-bindings: the client's side of the table - an application writes to peers (two of them differ only in "
+                "port) naming each now by the 4-byte, now by the 16-byte form of its IPv4 address, with ChannelBind requests that are "
+                "refused, unanswered or answered late, bindings that expire and are re-made; a scripted server holds every ChannelBind "
+                "and ChannelData the client emits against one-to-one-ness and the range.")
 for _pid, _txt in _MORE.items():
     CHECKS[_pid]["claim"] += _txt
+
+CHECKS["C08"]["stages"].append(
+    {"name": "client-bindings", "pkg": "cliworld", "run": "^TestC08Client$",
+     "quick": {"shards": 4, "checks": 400, "timeout_s": 400},
+     "thorough": {"shards": 16, "checks": 4000, "timeout_s": 2400}})
 
 CHECKS["C10"]["stages"].append(
     {"name": "native-fuzz", "pkg": "pure", "run": "^$", "fuzz_only": True,
